@@ -35,6 +35,17 @@ class ListIt(It):
         return None
 
 
+class CountIt(It):
+    """n.. (unbounded)"""
+    def __init__(self, start):
+        self.n = start
+
+    def next(self, it, depth):
+        v = self.n
+        self.n += 1
+        return v
+
+
 class ZipIt(It):
     def __init__(self, a, b):
         self.a, self.b = a, b
@@ -145,6 +156,9 @@ def as_iter(it, v):
         return UserIt(("ref", cell, 0, []), _local_iter_impl(it, v))
     if isinstance(v, tuple) and v[0] == "ref":
         tgt = it.load_ref(v)
+        while isinstance(tgt, tuple) and tgt[0] == "ref":      # &&[T]: iterate the slice behind the references
+            v = tgt
+            tgt = it.load_ref(v)
         if isinstance(tgt, tuple) and tgt[0] == "iter":
             return tgt[1]
         if isinstance(tgt, tuple) and tgt[0] == "array" and len(tgt) > 2 and tgt[2] == "window":
@@ -156,6 +170,10 @@ def as_iter(it, v):
         return ListIt([A.copy_val(x) for x in v[1]])
     if isinstance(v, tuple) and v[0] == "adt" and v[1].endswith("ops::range::Range") and all(isinstance(x, int) for x in v[3]):
         return ListIt(list(range(v[3][0], v[3][1])))
+    if isinstance(v, tuple) and v[0] == "adt" and v[1].endswith("ops::range::RangeFrom") and isinstance(v[3][0], int):
+        return CountIt(v[3][0])
+    if isinstance(v, tuple) and v[0] == "adt" and v[1].endswith("ops::range::RangeInclusive") and all(isinstance(x, int) for x in v[3][:2]):
+        return ListIt(list(range(v[3][0], v[3][1] + 1)))
     raise A.Undecided("into_iter on %r" % (v,))
 
 
